@@ -286,6 +286,11 @@ func runCheck(o checkOpts) int {
 				if f.Replay == nil || !(ob.Name == f.Obligation || strings.HasPrefix(ob.Name, f.Obligation+"@") || strings.HasPrefix(ob.Name, f.Obligation+"/")) {
 					continue
 				}
+				if f.Status != "fixed" {
+					// the witness of a finding that is still present fails with or without the change
+					// under test: it says nothing about this failure
+					continue
+				}
 				still, detail := p.replayKnown(o, f)
 				rep["recorded_finding"] = f.ID
 				rep["replay_on_real_code"] = detail
@@ -315,6 +320,14 @@ func runCheck(o checkOpts) int {
 			}
 			if _, ok := rep["replay_on_real_code"]; !ok {
 				rep["replay_on_real_code"] = rep["witness_search"]
+			}
+		}
+		if suffix != "" && ob.fx != nil && !ob.Canary {
+			// boundary inputs listed for this function in the spec files (witnesslist)
+			if recipe, detail, ok := p.tryWitnessLists(o, ob); ok {
+				rep["replay_on_real_code"] = detail
+				rep["replay_recipe"] = recipe
+				suffix = ""
 			}
 		}
 		data, _ := json.MarshalIndent(rep, "", " ")
@@ -347,9 +360,17 @@ func runCheck(o checkOpts) int {
 					why += " (" + e + ")"
 				}
 			}
-			data, _ := json.MarshalIndent(map[string]interface{}{"property": o.id, "owner": ow, "missing_obligations": byOwner[ow], "verdict": why}, "", " ")
+			mrep := map[string]interface{}{"property": o.id, "obligation": ow + " (obligations no longer generated)", "owner": ow, "missing_obligations": byOwner[ow], "verdict": why}
+			msuffix := " no-failing-input-found"
+			// boundary inputs listed for this function (witnesslist) may still show what the change did
+			if recipe, detail, ok := p.tryWitnessListsFor(o, ow); ok {
+				mrep["replay_on_real_code"] = detail
+				mrep["replay_recipe"] = recipe
+				msuffix = ""
+			}
+			data, _ := json.MarshalIndent(mrep, "", " ")
 			os.WriteFile(rf, data, 0o644)
-			fmt.Printf("VIOLATION property=%s replay=%s no-failing-input-found\n", o.id, rf)
+			fmt.Printf("VIOLATION property=%s replay=%s%s\n", o.id, rf, msuffix)
 			fmt.Printf("  %d expected obligations of %s are no longer generated (first: %s)\n", len(byOwner[ow]), ow, byOwner[ow][0])
 		}
 	}
